@@ -337,7 +337,7 @@ func one(e env, cell cells.Cell, ent reg.Entry, f *schema.File, t *schema.Type, 
 	}
 	rv, err := cellutil.DecodeValue(ent.Type, enc)
 	judge("value-path", rv, err)
-	for _, ck := range []chunk.Chunking{{Name: "whole"}, {Name: "1byte", One: true}} {
+	for _, ck := range []chunk.Chunking{{Name: "whole"}, {Name: "1byte", One: true}, {Name: "whole+eof-with-data", EOF: true}} {
 		rv, err := cellutil.DecodeStream(ent.Type, ck.New(enc))
 		judge("stream-path", rv, err)
 	}
